@@ -1231,6 +1231,7 @@ func (s *Store) streamBackupDB(ctx context.Context, name string, remotePos ltx.P
 
 	// Compact LTX files through a pipe so we can pass it to the backup client.
 	pr, pw := io.Pipe()
+	defer pr.Close() // unblock the compactor if the client did not drain the pipe
 	var pos ltx.Pos
 	go func() {
 		compactor := ltx.NewCompactor(pw, rdrs)
@@ -1272,6 +1273,7 @@ func (s *Store) streamBackupDBSnapshot(ctx context.Context, db *DB) (newPos ltx.
 
 	// Run snapshot through a goroutine so we can pipe it to the backup writer.
 	pr, pw := io.Pipe()
+	defer pr.Close() // unblock the snapshot writer if the client did not drain the pipe
 	go func() {
 		header, trailer, err := db.WriteSnapshotTo(ctx, pw)
 		v.Store(ltx.NewPos(header.MaxTXID, trailer.PostApplyChecksum))
